@@ -222,7 +222,7 @@ def cox_task(T, n, efron, shard=(0, 1)):
 
 
 for _ef in (False, True):
-    add_task(['C06', 'C09'], f'single_task:Cox[use_efron={_ef},n=2]', cox_task, strength='B', n=2, efron=_ef)
+    add_task(['C06', 'C09', 'C20'], f'single_task:Cox[use_efron={_ef},n=2]', cox_task, strength='B', n=2, efron=_ef)
     for _sh in range(4):
         add_task('C06', f'single_task:Cox[use_efron={_ef},n=3]', cox_task, strength='B', n=3, efron=_ef, shard=(_sh, 4))
 
